@@ -3,6 +3,7 @@
 package main
 
 import (
+	"net"
 	"flag"
 	"fmt"
 	"sort"
@@ -24,12 +25,37 @@ type rec struct {
 	name    string
 	reports []map[string]*api.MdnsEntry
 	fresh   []bool
+	scribble bool // the receiver modifies what it is handed (after keeping a copy)
 }
 
 func (r *rec) ReportMdnsEntries(entries map[string]*api.MdnsEntry, newEntries bool) {
 	simrt.Touch("rec:" + r.name)
-	r.reports = append(r.reports, entries)
+	// keep a copy for the oracles, then treat the report as the receiver's own, like the hub does (it narrows and sorts
+	// the address lists of what it is handed): the manager's view must not depend on what a receiver does with a report
+	kept := map[string]*api.MdnsEntry{}
+	for k, e := range entries {
+		if e == nil {
+			kept[k] = nil
+			continue
+		}
+		c := *e
+		c.Addresses = append([]net.IP(nil), e.Addresses...)
+		c.Categories = append([]api.DeviceCategoryType(nil), e.Categories...)
+		kept[k] = &c
+	}
+	r.reports = append(r.reports, kept)
 	r.fresh = append(r.fresh, newEntries)
+	if r.scribble {
+		for k, e := range entries {
+			if e != nil {
+				e.Addresses = []net.IP{net.IPv4(192, 0, 2, 99)}
+				e.Brand, e.Identifier, e.Host = "scribbled", "scribbled", "scribbled.local."
+				e.Register = !e.Register
+			}
+			_ = k
+		}
+		entries["ffff000000000000000000000000000000000000"] = &api.MdnsEntry{Ski: "ffff000000000000000000000000000000000000"}
+	}
 }
 
 func (r *rec) last() map[string]*api.MdnsEntry {
